@@ -80,7 +80,7 @@ class Seq(list):
         return self[0]
 
     def Count(self):
-        return len(self)
+        return len(list(iter(self)))  # counting looks at every element (Fadl/SemLazy.lean: Count forces all)
 
     def Sum(self):
         return sum(self)
@@ -216,7 +216,7 @@ def base_env(ds) -> dict:
         "Max": lambda s: _seq(s).Max(),
         "Min": lambda s: _seq(s).Min(),
         "Aggregate": lambda s, i, f: _seq(s).Aggregate(i, f),
-        "len": lambda s: len(_seq(s)),
+        "len": lambda s: _seq(s).Count(),
         "abs": lambda x: abs(_as_int(x)),
         "EventDataset": lambda: ds,
     }
